@@ -1,5 +1,6 @@
 import XsVerif.Driver.Util
 import XsVerif.Model.Converters
+import XsVerif.Model.ContentOrder
 open Lean XsVerif.Driver XsVerif.Conv
 
 namespace XsVerif.Driver.C05
@@ -153,7 +154,40 @@ def resJson (r : Except Err Node) : Json :=
   | .ok n => Json.mkObj [("ok", nodeJson n)]
   | .error e => Json.mkObj [("error", errName e)]
 
+def parseScript (j : Json) : Except String (List (Option (List String))) := do
+  (← j.getArr?).toList.mapM fun e =>
+    match e with
+    | .null => pure none
+    | e => do
+      let names ← (← e.getArr?).toList.mapM (·.getStr?)
+      pure (some names)
+
+def itemsRes (r : Except Err (List (Item J))) : Json :=
+  match r with
+  | .ok its => Json.mkObj [("ok", itemsJ its)]
+  | .error e => Json.mkObj [("error", errName e)]
+
+/-- `iter_unordered_content` / `iter_collapsed_content` against a recorded visitor -/
+def handleOrder (j : Json) : Except String Json := do
+  let script ← parseScript (← j.getObjVal? "script")
+  match ← getStr j "op" with
+  | "unordered" =>
+    let c ← (← getArr j "cdata").toList.mapM fun p => do
+      let q ← p.getArr?
+      if h : q.size = 2 then pure (← q[0].getNat?, ← jOfJson 64 q[1]) else throw "cdata"
+    let b ← (← getArr j "buckets").toList.mapM fun p => do
+      let q ← p.getArr?
+      if h : q.size = 2 then
+        pure (← q[0].getStr?, ← (← q[1].getArr?).toList.mapM (jOfJson 64))
+      else throw "bucket"
+    pure (itemsRes (Order.iterUnordered Order.scriptVisitor 4096 script c b))
+  | _ =>
+    let content ← parseItemsJ (← j.getObjVal? "content")
+    pure (itemsRes (Order.iterCollapsed Order.scriptVisitor 4096 script content))
+
 def handle (j : Json) : Except String Json := do
+  if let .ok op := getStr j "op" then
+    if op == "unordered" || op == "collapsed" then return ← handleOrder j
   let c ← parseConv j
   let sch := (← (← getArr j "sch").mapM parseFacts)
   let lookup : Nat → Option Facts := fun i => sch[i]?
